@@ -52,6 +52,32 @@ def normalise(ops):
     return out, fld
 
 
+def shape_frames(rng):
+    """one frame of every shape the decoder distinguishes (format x capability x downlink-request kind x type code x
+    subtype x BDS register), other bits random - without running the model (the same grid as DekuBits!Shapes)"""
+    keys = []
+    for df in (0, 16, 19):
+        keys.append((df, 0, 0, 0, 0, 0))
+    for df in (4, 5):
+        for p in (0, 1):
+            keys.append((df, 0, p, 0, 0, 0))
+    for df in (11, 24, 27, 31):
+        for ca in (0, 2, 5, 7):
+            keys.append((df, ca, 0, 0, 0, 0))
+    for ca in (0, 2, 5):
+        for tc in range(32):
+            for st in range(8):
+                keys.append((17, ca, 0, tc, st, 0))
+    for tc in range(32):
+        for st in range(8):
+            keys.append((18, 0, 0, tc, st, 0))
+    for df in (20, 21):
+        for p in (0, 1):
+            for f in (0, 16, 32, 48, 119, 255):
+                keys.append((df, 0, p, 0, 0, f))
+    return [frame_for(rng, f"df={d}|ca={c}|drpat={p}|tc={t}|st={s}|bds={b}") for (d, c, p, t, s, b) in keys]
+
+
 def run_binding(rep, rng):
     res = core.run_mc("MC_DekuBits", workers=1, timeout=900, cache=False)
     rep.add_model(res, "MC_DekuBits (DeliversPerGrammar for every shape; deviations D1/D2/D4 must fail)")
